@@ -118,6 +118,7 @@ type World struct {
 	LastBlockTxs    []TxResult
 	Mismatch        *ReplicaMismatch
 	beginDigest     string
+	Trail           []string // per committed block: height, app hash, begin/end event digests, tx answers (replica 0) - compared across OS processes (C06)
 	endDigest       string
 	KeysSet         map[string]bool
 	mEvCache        []ext.MEvent
